@@ -26,7 +26,7 @@ fn fwd(op: &Op, _ctx: &dyn Context, operands: &mut dyn CoordinateSet) -> usize {
 
     for i in 0..length {
         let (mut lam, phi) = operands.xy(i);
-        lam -= lon_0;
+        lam = angular::normalize_symmetric(lam - lon_0);
         let mut rho = 0.;
 
         // Close to one of the poles?
